@@ -89,10 +89,11 @@ namespace vw
         bool objective = true;
         std::string objectiveKind = "length";  // length | integral | work | clearance | multi
         double costThreshold = -1;              // < 0: the objective's default threshold
+        std::string sampler = "lattice";        // lattice (oracle STATE choices) | default (library sampler) | snap (library sampler snapped to a grid: ties)
         std::string json() const
         {
             return "\"planner\":" + vf::jesc(planner) + ",\"map\":" + vf::jesc(map) + ",\"space\":" + vf::jesc(space) + ",\"goal\":" + vf::jesc(goal) + ",\"threshold\":" + vf::jnum(threshold) +
-                   ",\"range\":" + vf::jnum(range) + ",\"resolution\":" + vf::jnum(resolution) + ",\"budget\":" + std::to_string(budget) + ",\"objective\":" + (objective ? "true" : "false") + ",\"objectiveKind\":" + vf::jesc(objectiveKind) + ",\"costThreshold\":" + vf::jnum(costThreshold);
+                   ",\"range\":" + vf::jnum(range) + ",\"resolution\":" + vf::jnum(resolution) + ",\"budget\":" + std::to_string(budget) + ",\"objective\":" + (objective ? "true" : "false") + ",\"objectiveKind\":" + vf::jesc(objectiveKind) + ",\"costThreshold\":" + vf::jnum(costThreshold) + ",\"sampler\":" + vf::jesc(sampler);
         }
         static Cfg fromJson(const vf::JV &v)
         {
@@ -110,6 +111,8 @@ namespace vw
                 c.objectiveKind = v["objectiveKind"].s;
             if (v.has("costThreshold"))
                 c.costThreshold = v["costThreshold"].d();
+            if (v.has("sampler"))
+                c.sampler = v["sampler"].s;
             return c;
         }
     };
@@ -204,6 +207,44 @@ namespace vw
         void sampleGaussian(ob::State *s, const ob::State *mean, double stdDev) override
         {
             sampleUniformNear(s, mean, 2 * stdDev);
+        }
+    };
+
+    // the library's own sampler with every coordinate snapped to a half-cell grid: distance ties everywhere (C20)
+    struct SnapSampler : ob::StateSampler
+    {
+        ob::StateSamplerPtr inner;
+        SnapSampler(const ob::StateSpace *sp, ob::StateSamplerPtr in) : ob::StateSampler(sp), inner(std::move(in))
+        {
+        }
+        void snap(ob::State *s)
+        {
+            double x, y;
+            xy(space_, s, x, y);
+            x = std::floor(x * 2) / 2 + 0.25;
+            y = std::floor(y * 2) / 2 + 0.25;
+            auto *rv = space_->getType() == ob::STATE_SPACE_REAL_VECTOR ? space_->as<ob::RealVectorStateSpace>() : space_->as<ob::SE2StateSpace>()->getSubspace(0)->as<ob::RealVectorStateSpace>();
+            x = std::min(x, rv->getBounds().high[0] - 0.25);
+            y = std::min(y, rv->getBounds().high[1] - 0.25);
+            double yaw = 0;
+            if (space_->getType() != ob::STATE_SPACE_REAL_VECTOR)
+                yaw = std::floor(s->as<ob::SE2StateSpace::StateType>()->getYaw() * 2) / 2;
+            setXY(space_, s, x, y, yaw);
+        }
+        void sampleUniform(ob::State *s) override
+        {
+            inner->sampleUniform(s);
+            snap(s);
+        }
+        void sampleUniformNear(ob::State *s, const ob::State *near, double d) override
+        {
+            inner->sampleUniformNear(s, near, d);
+            snap(s);
+        }
+        void sampleGaussian(ob::State *s, const ob::State *mean, double sd) override
+        {
+            inner->sampleGaussian(s, mean, sd);
+            snap(s);
         }
     };
 
@@ -348,7 +389,10 @@ namespace vw
                 space = r;
             }
             const Lattice *L = &lat;
-            space->setStateSamplerAllocator([L](const ob::StateSpace *sp) { return std::make_shared<LatSampler>(sp, *L); });
+            if (c.sampler == "lattice")
+                space->setStateSamplerAllocator([L](const ob::StateSpace *sp) { return std::make_shared<LatSampler>(sp, *L); });
+            else if (c.sampler == "snap")
+                space->setStateSamplerAllocator([](const ob::StateSpace *sp) { return std::make_shared<SnapSampler>(sp, sp->allocDefaultStateSampler()); });
             si = std::make_shared<ob::SpaceInformation>(space);
             si->setStateValidityChecker(std::make_shared<Checker>(si, this));
             si->setStateValidityCheckingResolution(c.resolution);
